@@ -1,5 +1,329 @@
-import OsmVerif.Model.Annotate
+import OsmVerif.Lemmas.Annotate
+/-!
+# C11 — annotation reconstructs, for any time, the child versions that were current
+
+Theorems about `Model.Annotate` (hand-written model of the annotation core, tied to the code by the
+differential stream through `annotate.Ways` / `annotate.Relations` and by a ground-truth time-travel
+oracle on simulated edit timelines).
+
+The unconditional statements are for the **commit-time regime** (every version of parent and child
+carries a commit time at or after `osm.CommitInfoStart`), where `currentAt cl t` — the last version
+committed at or before `t`, if visible — is the ground truth. In that regime the code does not apply
+the grouping threshold at all (`timeThresholdParent` returns the commit time unchanged), so the window
+proved here, `[commit pᵢ, commit pᵢ₊₁)`, contains the one the property states.
+-/
 namespace OsmVerif.Props.C11
 open OsmVerif.Model.Annotate
-theorem findVisible_nil (cid a e : Int) : findVisible [] cid a e = none := rfl
+
+/-- a child history as the datasource hands it over, in the commit-time regime -/
+structure Timeline (cl : List Child) : Prop where
+  regime : CommitRegime cl
+  sorted : CommitSorted cl
+  indexed : WellIndexed cl
+  ts : ∀ c ∈ cl, commitInfoStart ≤ c.ts
+
+def ParentCommit (p : ParentV) (P : Int) : Prop := p.committed = some P ∧ commitInfoStart ≤ P
+
+theorem parentTime {p : ParentV} {P : Int} (h : ParentCommit p P) (esp : Int) : timeThresholdParent p esp = P := by
+  have : beforeStart (some P) = false := by simp [beforeStart]; exact h.2
+  simp [timeThresholdParent, h.1, this]
+
+/-! ## which version the child reference gets -/
+
+/-- **each child reference carries the child version that was current when the parent version was committed** -/
+theorem child_is_current_at_commit (cl : List Child) (tl : Timeline cl) (cid P eps : Int) :
+    findVisible cl cid P eps = currentAt cl P :=
+  findVisible_commit cl cid P eps tl.regime tl.sorted
+
+theorem currentAt_position {cl : List Child} (tl : Timeline cl) {t : Int} {c : Child} (h : currentAt cl t = some c) :
+    countAt cl t ≠ 0 ∧ cl[countAt cl t - 1]? = some c ∧ c.vindex = countAt cl t - 1 ∧ c.visible = true ∧ commitOf c ≤ t := by
+  unfold currentAt at h
+  cases hl : lastAt cl t with
+  | none => simp [hl] at h
+  | some d =>
+    simp only [hl] at h
+    by_cases hv : d.visible = true
+    · simp only [hv, if_true, Option.some.injEq] at h
+      subst h
+      rw [lastAt_eq_getElem cl t tl.sorted] at hl
+      by_cases h0 : countAt cl t = 0
+      · simp [h0] at hl
+      · simp only [h0, if_false] at hl
+        refine ⟨h0, hl, tl.indexed _ _ hl, hv, ?_⟩
+        exact (commit_le_iff_lt_count cl t tl.sorted _ _ hl).mpr (by omega)
+    · simp [hv] at h
+
+theorem countAt_mono (cl : List Child) {t u : Int} (h : t ≤ u) : countAt cl t ≤ countAt cl u := by
+  unfold countAt
+  induction cl with
+  | nil => simp
+  | cons c rest ih =>
+    simp only [List.filter_cons]
+    by_cases h1 : commitOf c ≤ t
+    · have : commitOf c ≤ u := by omega
+      simp [h1, this]; exact ih
+    · by_cases h2 : commitOf c ≤ u
+      · simp [h1, h2]; omega
+      · simp [h1, h2]; exact ih
+
+theorem countAt_le_countBefore (cl : List Child) {t u : Int} (h : t < u) : countAt cl t ≤ countBefore cl u := by
+  unfold countAt countBefore
+  induction cl with
+  | nil => simp
+  | cons c rest ih =>
+    simp only [List.filter_cons]
+    by_cases h1 : commitOf c ≤ t
+    · have : commitOf c < u := by omega
+      simp [h1, this]; exact ih
+    · by_cases h2 : commitOf c < u
+      · simp [h1, h2]; omega
+      · simp [h1, h2]; exact ih
+
+/-! ## which versions become updates -/
+
+/-- **the update range reaches every version committed before the next parent version**: for `t` in
+    `[commit pᵢ, commit pᵢ₊₁)` (all later times if there is no next version) every version committed at or
+    before `t` lies below `nextVersionIndex` -/
+theorem nextVersion_covers (cl : List Child) (tl : Timeline cl) (o : Options) (ch : Child) (P : Int)
+    (hch : currentAt cl P = some ch) (np : Option ParentV) (t : Int) (hPt : P ≤ t)
+    (hnp : match np with
+      | none => True
+      | some n => ∃ N, ParentCommit n N ∧ t < N) :
+    countAt cl t ≤ nextVersionIndex (some ch) cl np o := by
+  obtain ⟨hc0, hcpos, hcidx, hcvis, hcle⟩ := currentAt_position tl hch
+  cases np with
+  | none =>
+    -- all future versions
+    unfold nextVersionIndex
+    have hne : cl ≠ [] := by intro e; subst e; simp [countAt] at hc0
+    cases hl : cl.getLast? with
+    | none => simp [List.getLast?_eq_none_iff] at hl; exact absurd hl hne
+    | some l =>
+      simp only
+      have hpos : cl[cl.length - 1]? = some l := by rw [← List.getLast?_eq_getElem?]; exact hl
+      have := tl.indexed _ _ hpos
+      have := countAt_le_length cl t
+      have : cl.length ≠ 0 := by intro e; exact hne (List.length_eq_zero_iff.mp e)
+      omega
+  | some n =>
+    obtain ⟨N, hN, htN⟩ := hnp
+    unfold nextVersionIndex
+    simp only [parentTime hN, child_is_current_at_commit cl tl]
+    cases hnx : currentAt cl N with
+    | some nx =>
+      obtain ⟨n0, npos, nidx, nvis, nle⟩ := currentAt_position tl hnx
+      obtain ⟨tn, htn, htn2⟩ := tl.regime nx (List.mem_of_getElem? npos)
+      have hcn : commitOf nx = tn := by simp [commitOf, htn]
+      simp only [timeThreshold_commit htn htn2]
+      by_cases hlt : tn < N
+      · simp only [hlt, if_true]
+        have := countAt_mono cl (Int.le_of_lt htN)
+        omega
+      · simp only [hlt, if_false]
+        -- nx was committed exactly with the next parent: it is not ≤ t
+        have : ¬ (countAt cl N - 1 < countAt cl t) := by
+          intro hh
+          have := (commit_le_iff_lt_count cl t tl.sorted _ _ npos).mpr hh
+          omega
+        omega
+    | none =>
+      simp only
+      obtain ⟨tc, htc, htc2⟩ := tl.regime ch (List.mem_of_getElem? hcpos)
+      have hcc : commitOf ch = tc := by simp [commitOf, htc]
+      simp only [timeThreshold_commit htc htc2]
+      have hgt : N > tc := by omega
+      simp only [hgt, not_true_eq_false, if_false]
+      rw [versionBefore_commit cl N tl.regime tl.sorted, sorted_filter_lt_eq_take cl N tl.sorted]
+      have hcb := countAt_le_countBefore cl htN
+      have hbl := countBefore_le_length cl N
+      cases hg : (cl.take (countBefore cl N)).getLast? with
+      | none =>
+        have : cl.take (countBefore cl N) = [] := List.getLast?_eq_none_iff.mp hg
+        have : countBefore cl N = 0 ∨ cl = [] := by
+          rcases List.take_eq_nil_iff.mp this with h | h
+          · exact Or.inl h
+          · exact Or.inr h
+        rcases this with h | h
+        · simp; omega
+        · subst h; simp [countAt] at hc0
+      | some b =>
+        simp only
+        rw [List.getLast?_eq_getElem?, List.length_take, Nat.min_eq_left hbl] at hg
+        have hb0 : countBefore cl N ≠ 0 := by
+          intro e; rw [e] at hg; simp at hg
+        rw [List.getElem?_take_of_lt (by omega)] at hg
+        have := tl.indexed _ _ hg
+        omega
+
+/-- what one (child, parent version) step produces in the commit-time regime when the child is consistent -/
+theorem groupEffect_commit (o : Options) (parents : List ParentV) (fid : Nat) (cl : List Child) (tl : Timeline cl)
+    (pidx : Nat) (idxs : List Nat) (p : ParentV) (hp : parents[pidx]? = some p) (hvis : p.visible = true)
+    (P : Int) (hP : ParentCommit p P) (ch : Child) (hch : currentAt cl P = some ch)
+    (hcons : ∀ k c, countAt cl P ≤ k → k < nextVersionIndex (some ch) cl parents[pidx + 1]? o →
+      cl[k]? = some c → c.visible = true) :
+    groupEffect o parents fid cl pidx idxs = .ok (some
+      { parent := pidx, sets := idxs.map (fun i => (i, ch)),
+        updates := (versionRange (countAt cl P) (nextVersionIndex (some ch) cl parents[pidx + 1]? o)).flatMap
+          (versionUpdates cl idxs) }) := by
+  obtain ⟨hc0, hcpos, hcidx, hcvis, hcle⟩ := currentAt_position tl hch
+  unfold groupEffect
+  simp only [hp, hvis, not_true_eq_false, if_false, parentTime hP, child_is_current_at_commit cl tl, hch,
+    Option.isNone_some, Bool.false_eq_true, false_and]
+  have hstart : ch.vindex + 1 = countAt cl P := by omega
+  rw [hstart, rangeUpdates_ok o pidx fid cl idxs _ _ hcons]
+
+theorem flatMap_if_all {l : List Nat} (f : Nat → Option Update) (m : Nat) (hall : ∀ k ∈ l, k < m) :
+    l.flatMap (fun k => if k < m then (f k).toList else []) = l.filterMap f := by
+  induction l with
+  | nil => rfl
+  | cons k ks ih =>
+    have hk := hall k (by simp)
+    simp only [List.flatMap_cons, hk, if_true, List.filterMap_cons]
+    rw [ih (fun k' hk' => hall k' (by simp [hk']))]
+    cases f k <;> simp
+
+/-- **time travel**: for every time `t` from the commit of this parent version up to (not including) the
+    commit of the next one, the updates addressed to child slot `j` and stamped at or before `t` are exactly
+    the child versions committed after the parent version and at or before `t`, oldest first — each stamped
+    with its commit time — so applying them leaves the version that was current at `t` -/
+theorem time_travel (o : Options) (parents : List ParentV) (fid : Nat) (cl : List Child) (tl : Timeline cl)
+    (pidx : Nat) (idxs : List Nat) (hnd : idxs.Nodup) (p : ParentV) (hp : parents[pidx]? = some p) (hvis : p.visible = true)
+    (P : Int) (hP : ParentCommit p P) (ch : Child) (hch : currentAt cl P = some ch)
+    (hcons : ∀ k c, countAt cl P ≤ k → k < nextVersionIndex (some ch) cl parents[pidx + 1]? o →
+      cl[k]? = some c → c.visible = true)
+    (t : Int) (hPt : P ≤ t)
+    (hnext : match parents[pidx + 1]? with
+      | none => True
+      | some n => ∃ N, ParentCommit n N ∧ t < N)
+    (j : Nat) (hj : j ∈ idxs) :
+    ∃ e, groupEffect o parents fid cl pidx idxs = .ok (some e) ∧
+      e.sets = idxs.map (fun i => (i, ch)) ∧
+      e.updates.filter (fun u => decide (u.index = j ∧ u.ts ≤ t)) =
+        (versionRange (countAt cl P) (countAt cl t)).filterMap (fun k => cl[k]?.map (fun c => c.update j)) := by
+  refine ⟨_, groupEffect_commit o parents fid cl tl pidx idxs p hp hvis P hP ch hch hcons, rfl, ?_⟩
+  simp only
+  have hcov := nextVersion_covers cl tl o ch P hch parents[pidx + 1]? t hPt hnext
+  generalize nextVersionIndex (some ch) cl parents[pidx + 1]? o = stop at hcov
+  -- per version: the updates of version k that are addressed to j and stamped ≤ t
+  have hver : ∀ k, (versionUpdates cl idxs k).filter (fun u => decide (u.index = j ∧ u.ts ≤ t)) =
+      if k < countAt cl t then (cl[k]?.map (fun c => c.update j)).toList else [] := by
+    intro k
+    unfold versionUpdates
+    cases hk : cl[k]? with
+    | none => simp
+    | some c =>
+      obtain ⟨tc, htc, htc2⟩ := tl.regime c (List.mem_of_getElem? hk)
+      have hf := fun i => update_fields c i tc htc (tl.ts c (List.mem_of_getElem? hk))
+      have hiff := commit_le_iff_lt_count cl t tl.sorted k c hk
+      have hco : commitOf c = tc := by simp [commitOf, htc]
+      rw [hco] at hiff
+      simp only [Option.map_some, Option.toList_some]
+      by_cases hlt : k < countAt cl t
+      · have hle : tc ≤ t := hiff.mpr hlt
+        simp only [hlt, if_true]
+        -- among idxs (nodup) exactly j passes
+        rw [List.filter_map]
+        have : idxs.filter ((fun u => decide (u.index = j ∧ u.ts ≤ t)) ∘ fun i => c.update i) = [j] := by
+          have hfun : ((fun u => decide (u.index = j ∧ u.ts ≤ t)) ∘ fun i => c.update i) = fun i => decide (i = j) := by
+            funext i
+            simp [(hf i).1, (hf i).2.2.2.2.2, hle]
+          rw [hfun]
+          clear hfun
+          induction idxs with
+          | nil => cases hj
+          | cons x xs ih =>
+            have hx := List.nodup_cons.mp hnd
+            by_cases e : x = j
+            · subst e
+              have : xs.filter (fun i => decide (i = x)) = [] := by
+                rw [List.filter_eq_nil_iff]; intro y hy; simp; intro e2; subst e2; exact hx.1 hy
+              simp [List.filter_cons, this]
+            · have hj' : j ∈ xs := by
+                rcases List.mem_cons.mp hj with h | h
+                · exact absurd h.symm e
+                · exact h
+              simp [List.filter_cons, e, ih hx.2 hj']
+        rw [this]; rfl
+      · simp only [hlt, if_false]
+        rw [List.filter_eq_nil_iff]
+        intro u hu
+        obtain ⟨i, _, rfl⟩ := List.mem_map.mp hu
+        have : ¬ tc ≤ t := fun h => hlt (hiff.mp h)
+        simp [(hf i).2.2.2.2.2, this]
+  rw [List.filter_flatMap]
+  simp only [hver]
+  -- now split the range at countAt t
+  clear hver hcons
+  have hmono := countAt_mono cl hPt
+  induction stop with
+  | zero =>
+    have : countAt cl t = 0 := by omega
+    simp [versionRange, this]
+  | succ s ih =>
+    rw [versionRange_succ, List.flatMap_append]
+    by_cases hs : countAt cl t ≤ s
+    · rw [ih hs]
+      by_cases h1 : countAt cl P ≤ s
+      · have : ¬ s < countAt cl t := by omega
+        simp [h1, this]
+      · simp [h1]
+    · have hs' : countAt cl t = s + 1 := by omega
+      -- every k in the range is below countAt t
+      have hall : ∀ k ∈ versionRange (countAt cl P) s, k < countAt cl t := by
+        intro k hk; have := (mem_versionRange _ _ _).mp hk; omega
+      have e1 := flatMap_if_all (fun k => cl[k]?.map (fun c => c.update j)) (countAt cl t) hall
+      rw [e1, hs', versionRange_succ, List.filterMap_append]
+      by_cases h1 : countAt cl P ≤ s
+      · have : s < s + 1 := by omega
+        simp only [h1, if_true, List.flatMap_cons, List.flatMap_nil, List.append_nil, hs', this, List.filterMap_cons, List.filterMap_nil]
+        cases cl[s]? <;> simp
+      · simp [h1]
+
+/-! ## deleted parents, missing and inconsistent histories -/
+
+/-- **deleted parent versions receive no annotations** -/
+theorem deleted_parent_untouched (o : Options) (parents : List ParentV) (fid : Nat) (cl : List Child) (pidx : Nat)
+    (idxs : List Nat) (p : ParentV) (hp : parents[pidx]? = some p) (hvis : p.visible = false) :
+    groupEffect o parents fid cl pidx idxs = .ok none := by
+  simp [groupEffect, hp, hvis]
+
+/-- **missing child history**: the documented typed error, unless the option says to ignore it -/
+theorem no_history_error (o : Options) (parents : List ParentV) (hist : Nat → Option (List Child)) (fid : Nat)
+    (h : hist fid = none) :
+    childEffects o parents hist fid = if o.ignoreMissing then .ok [] else .error (.noHistory fid) := by
+  simp [childEffects, h]
+
+/-- **no visible child at the parent's time**: the documented typed error carrying that time, unless ignored -/
+theorem no_visible_child_error (o : Options) (parents : List ParentV) (fid : Nat) (cl : List Child) (tl : Timeline cl)
+    (pidx : Nat) (idxs : List Nat) (p : ParentV) (hp : parents[pidx]? = some p) (hvis : p.visible = true)
+    (P : Int) (hP : ParentCommit p P) (hno : currentAt cl P = none) (hig : o.ignoreInconsistency = false) :
+    groupEffect o parents fid cl pidx idxs = .error (.noVisibleChild fid P) := by
+  unfold groupEffect
+  simp [hp, hvis, parentTime hP, child_is_current_at_commit cl tl, hno, hig]
+
+/-- **child deleted between parent versions**: an invisible version inside the update range is an error
+    unless inconsistencies are ignored, in which case it is skipped -/
+theorem child_deleted_between_error (o : Options) (pidx fid : Nat) (cl : List Child) (idxs : List Nat)
+    (start k : Nat) (c : Child) (hk : cl[k]? = some c) (hs : start ≤ k) (hinv : c.visible = false)
+    (hbefore : ∀ k' c', start ≤ k' → k' < k → cl[k']? = some c' → c'.visible = true) :
+    rangeUpdates o pidx fid cl idxs start (k + 1) =
+      if o.ignoreInconsistency then .ok ((versionRange start k).flatMap (versionUpdates cl idxs))
+      else .error (.deletedBetween pidx fid) := by
+  unfold rangeUpdates
+  have : ¬ start > k := by omega
+  simp only [this, if_false]
+  rw [rangeUpdates_ok o pidx fid cl idxs k start hbefore]
+  simp [bind, Except.bind, hk, hinv]
+
+/-! ## non-vacuity: a three-version node under two way versions -/
+def exCl : List Child := [
+  ⟨1, 10, 0, 1400000000, some 1400000000, 1, 1, true, false⟩,
+  ⟨2, 11, 1, 1400000100, some 1400000100, 2, 2, true, false⟩,
+  ⟨3, 12, 2, 1400000300, some 1400000300, 3, 3, true, false⟩]
+def exParents : List ParentV := [⟨10, true, 1400000050, some 1400000050, [(7, false)]⟩, ⟨12, true, 1400000300, some 1400000300, [(7, false)]⟩]
+example : currentAt exCl 1400000050 = some ⟨1, 10, 0, 1400000000, some 1400000000, 1, 1, true, false⟩ := by decide
+example : (match groupEffect ⟨1800, false, false, 0⟩ exParents 7 exCl 0 [0] with
+    | .ok (some e) => e.updates.map (·.version)
+    | _ => []) = [2] := by decide
+
 end OsmVerif.Props.C11
